@@ -192,3 +192,47 @@ fn k_collect_btreemap() {
         core::mem::forget(m); core::mem::forget(cx);
     }
 }
+
+// ---- ordered / heap sets (elements cannot be Gc: Gc is not Ord; the impls matter for NEEDS_TRACE and for element types that wrap pointers)
+#[derive(PartialEq, Eq, PartialOrd, Ord)]
+struct Keyed<'gc>(u8, Static<u8>, core::marker::PhantomData<G<'gc>>);
+/// an element type that is Ord AND holds a pointer (ordered by its tag only)
+struct Tagged<'gc>(u8, G<'gc>);
+impl<'gc> PartialEq for Tagged<'gc> { fn eq(&self, o: &Self) -> bool { self.0 == o.0 } }
+impl<'gc> Eq for Tagged<'gc> {}
+impl<'gc> PartialOrd for Tagged<'gc> { fn partial_cmp(&self, o: &Self) -> Option<core::cmp::Ordering> { Some(self.cmp(o)) } }
+impl<'gc> Ord for Tagged<'gc> { fn cmp(&self, o: &Self) -> core::cmp::Ordering { self.0.cmp(&o.0) } }
+unsafe impl<'gc> Collect<'gc> for Tagged<'gc> { fn trace<T: Trace<'gc>>(&self, cc: &mut T) { cc.trace(&self.1) } }
+
+#[kani::proof]
+#[kani::unwind(5)]
+fn k_collect_btreeset_binaryheap() {
+    unsafe {
+        let cx = Context::new(); let mc = cx.mutation_context();
+        let g = mk(mc); let p = [a(g[0]), a(g[1])];
+        if kani::any() {
+            let mut s: BTreeSet<Tagged> = BTreeSet::new(); s.insert(Tagged(1, g[0]));
+            let mut r = Rec::new(); s.trace(&mut r); assert!(seq(&r, &p[..1], &[]), "[trace] BTreeSet elements");
+            assert!(nt::<BTreeSet<Tagged>>() && nt::<BTreeMap<Tagged, u8>>(), "[trace] NEEDS_TRACE from the key / element type");
+            core::mem::forget(s);
+        } else {
+            let mut h: BinaryHeap<Tagged> = BinaryHeap::new(); h.push(Tagged(1, g[0])); h.push(Tagged(2, g[1]));
+            let mut r = Rec::new(); h.trace(&mut r); assert!(bag(&r, &p), "[trace] BinaryHeap elements (order free)");
+            assert!(nt::<BinaryHeap<Tagged>>());
+            core::mem::forget(h);
+        }
+        core::mem::forget(cx);
+    }
+}
+/// BTreeMap KEYS are traced too
+#[kani::proof]
+#[kani::unwind(5)]
+fn k_collect_btreemap_keys() {
+    unsafe {
+        let cx = Context::new(); let mc = cx.mutation_context();
+        let g = mk(mc); let p = [a(g[0]), a(g[1])];
+        let mut m: BTreeMap<Tagged, G> = BTreeMap::new(); m.insert(Tagged(1, g[0]), g[1]);
+        let mut r = Rec::new(); m.trace(&mut r); assert!(bag(&r, &p), "[trace] BTreeMap: key AND value reported");
+        core::mem::forget(m); core::mem::forget(cx);
+    }
+}
